@@ -32,6 +32,7 @@ struct SubInfo {
     wake_ok: bool,
     expected: usize,
     delivered: usize,
+    count_fuzzy: bool,
     live: bool,
 }
 
@@ -327,7 +328,7 @@ impl World {
             Some(Poll::Pending) => {
                 let replica_ok = s.replica.iter().eq(shadow.iter());
                 let step_ok = s.got_reset || s.ptr == s.states.len();
-                let count_ok = s.got_reset || s.expected == s.delivered;
+                let count_ok = s.got_reset || s.count_fuzzy || s.expected == s.delivered;
                 s.last_pending = true;
                 s.woken = false;
                 s.sent_since_pending = 0;
@@ -544,11 +545,32 @@ fn run_txn<'a>(ob: &mut ObservableVector<u32>, w: &mut World, ops: &mut std::sli
             w.out.push(".".into());
         } else if name == "tc" {
             txn.commit();
+            let contents_unchanged = w.shadow == w.tshadow;
             w.shadow = w.tshadow.clone();
             if w.batch_count > 0 {
-                let st = w.shadow.clone();
-                let n = w.batch_count;
-                w.published(&st, n);
+                if contents_unchanged {
+                    // a committed transaction that leaves the contents as they were may or may not
+                    // publish (e.g. `clear` on an empty working copy): the property does not say;
+                    // from here on the exact diff count / state sequence is not checked for the
+                    // current subscribers (the replica checks remain)
+                    for s in w.subs.iter_mut() {
+                        if s.live {
+                            s.got_reset = true;
+                        }
+                    }
+                } else {
+                    // how many diffs a committed transaction publishes is not fixed by the property
+                    // (only that they take the old contents to the new ones): exact counting is for
+                    // direct calls
+                    for s in w.subs.iter_mut() {
+                        if s.live {
+                            s.count_fuzzy = true;
+                        }
+                    }
+                    let st = w.shadow.clone();
+                    let n = w.batch_count;
+                    w.published(&st, n);
+                }
             }
             let ok = ob.iter().eq(w.shadow.iter());
             let sfx = w.woken_suffix();
@@ -687,6 +709,7 @@ pub fn run_line(line: &str, out: &mut String) {
                 wake_ok: true,
                 expected: 0,
                 delivered: 0,
+                count_fuzzy: false,
                 live: true,
             });
         } else if name == "get" {
